@@ -8,13 +8,16 @@
 (*  monitor: the property section of Pll.tla (the ...P predicates)         *)
 (*           evaluated on the recorded calls.  o* variables are bound to   *)
 (*           the logged projection: the inputs as replayed, the clock      *)
-(*           epoch seen at entry / after the call, the mode attribute of   *)
-(*           the "PLL iteration" log record, the Step/Adjust calls the     *)
-(*           clock received; oEstart is the clock-side ghost "reading at   *)
-(*           which the current clock epoch began".                         *)
-(*  strict:  the Pll.tla variables are advanced by Pll!Do on the same      *)
-(*           inputs; mode and call must be the ones the specification      *)
-(*           computes (drift only).                                        *)
+(*           epoch at entry / after the call, what the Epoch() reads       *)
+(*           returned, where external steps landed inside the call, the    *)
+(*           mode attribute of the "PLL iteration" log record, the         *)
+(*           Step/Adjust calls the clock received and at which access;     *)
+(*           oEstart is the clock-side ghost "reading at which the current *)
+(*           clock epoch began", oNow / oLo the readings when the last     *)
+(*           call returned / was made.  All times are the clock's own.     *)
+(*  strict:  the Pll.tla variables are advanced by Pll!RunCall on the same *)
+(*           inputs and the same external steps; mode, reads and call must *)
+(*           be the ones the specification computes (drift only).          *)
 (* Every failing (event, clauses) pair is printed when the event is        *)
 (* consumed (MBAD / SBAD lines) and counted in mbad / sbad; MonitorReport /*)
 (* StrictReport print the totals at the end of the trace, so that one run  *)
@@ -37,41 +40,67 @@ BumpDen == 1
 InitClkEpochs == {0}
 MaxLen == 1000000
 RawMags(b) == {b}
+Jumps == {}
+StepAt == {}
+MaxInDo == 0
 \* the code under test has both repairs (Step(measured), d clamped to the
-\* largest whole number of seconds of a time.Duration)
+\* largest whole number of seconds of a time.Duration) and reads Epoch() first
 StepUsesDoubleInv == FALSE
 DurationWraps == FALSE
+ReadsNowFirst == FALSE
 
-VARIABLES mode, epoch, t0, t, now, clkEpoch, estart, act, lastIn, hist,   \* Pll.tla, advanced by Pll!Do
+VARIABLES mode, epoch, t0, t, now, clkEpoch, estart, pc, nacc, rnow, pend, cur, stp, nin,
+          nowIn, esIn, prevLo, act, lastIn, hist,                         \* Pll.tla, advanced by Pll!RunCall
           l,                                                              \* events consumed
-          oNow, oCep, oCep2, oMode, oEstart, oLi,                         \* observed projection
+          oNow, oLo, oQ, oCep2, oMode, oEstart,                           \* observed projection
           mbad, sbad                                                      \* failing clauses so far
 INSTANCE Pll
 
 Trace == ndJsonDeserialize("trace.ndjson")
 N == Len(Trace)
 
-tvars == <<mode, epoch, t0, t, now, clkEpoch, estart, act, lastIn, hist,
-           l, oNow, oCep, oCep2, oMode, oEstart, oLi, mbad, sbad>>
+tvars == <<vars, l, oNow, oLo, oQ, oCep2, oMode, oEstart, mbad, sbad>>
 
 \* ------------------------------------------------------------------ observed
 ObsAct(a) == [k |-> a.k, x |-> a.x, p |-> a.p, d |-> IF a.d_pos THEN 1 ELSE 0, ffin |-> a.ffin]
 
+\* The clock's own timeline of one update, from what the scripted clock
+\* recorded: the reading when Do was called (cx.nowIn), the start of the clock
+\* epoch current then (cx.esIn), the reading when the previous update was
+\* called (cx.lo), and the external steps that landed inside the call
+\* (R.ks[i]: after k accesses, jump j).  Between two accesses only a step
+\* moves the reading.
+RECURSIVE JumpBefore(_, _, _)
+JumpBefore(ks, i, ai) == IF i > Len(ks) THEN 0
+                         ELSE (IF ks[i].k < ai THEN ks[i].j ELSE 0) + JumpBefore(ks, i + 1, ai)
+DistBefore(ks, ai) == \E i \in DOMAIN ks : ks[i].k < ai
+\* facts about the ai-th clock access of the update, if it is an actuation call
+LiAt(R, lb, cx, ai) ==
+  LET at == TAdd(cx.nowIn, JumpBefore(R.ks, 1, ai), FALSE)
+  IN [lb EXCEPT !.since = IF DistBefore(R.ks, ai) THEN 0 ELSE TSub(at, cx.esIn),   \* a step that has just landed began the epoch
+                !.sinceIn = TSub(at, cx.esIn),
+                !.dt = TSub(at, cx.lo)]
+\* an epoch change was observed through the clock's epoch: one of the Epoch()
+\* reads of this update returned another value than the read before it
+RECURSIVE ObsChain(_, _, _)
+ObsChain(prev, q, i) == IF i > Len(q) THEN FALSE ELSE (q[i] # prev \/ ObsChain(q[i], q, i + 1))
+
 \* ------------------------------------------------------------ monitor clauses
-\* (R: the event, li: facts about the update as observed)
-MStepMode(R, li)   == \A i \in DOMAIN R.acts : StepModeP(ObsAct(R.acts[i]), li)
-MStepWait(R, li)   == \A i \in DOMAIN R.acts : StepWaitP(ObsAct(R.acts[i]), li)
-MStepWeight(R, li) == \A i \in DOMAIN R.acts : StepWeightP(ObsAct(R.acts[i]), li)
-MStepOffset(R, li) == \A i \in DOMAIN R.acts : StepOffsetP(ObsAct(R.acts[i]), li)
-MStepAmount(R, li) == \A i \in DOMAIN R.acts :
-                        R.acts[i].k = "step" => (R.acts[i].x_eq /\ StepAmountP(ObsAct(R.acts[i]), li))
-MTrackingOnlySlews(R, li) == \A i \in DOMAIN R.acts : TrackingOnlySlewsP(ObsAct(R.acts[i]), li)
-MSlewBound(R, li)  == \A i \in DOMAIN R.acts :
+\* (R: the event, lb: facts about the update as observed, cx: its timeline)
+Li(R, lb, cx, i) == LiAt(R, lb, cx, R.acts[i].ai)
+MStepMode(R, lb, cx)   == \A i \in DOMAIN R.acts : StepModeP(ObsAct(R.acts[i]), Li(R, lb, cx, i))
+MStepWait(R, lb, cx)   == \A i \in DOMAIN R.acts : StepWaitP(ObsAct(R.acts[i]), Li(R, lb, cx, i))
+MStepWeight(R, lb, cx) == \A i \in DOMAIN R.acts : StepWeightP(ObsAct(R.acts[i]), Li(R, lb, cx, i))
+MStepOffset(R, lb, cx) == \A i \in DOMAIN R.acts : StepOffsetP(ObsAct(R.acts[i]), Li(R, lb, cx, i))
+MStepAmount(R, lb, cx) == \A i \in DOMAIN R.acts :
+                        R.acts[i].k = "step" => (R.acts[i].x_eq /\ StepAmountP(ObsAct(R.acts[i]), Li(R, lb, cx, i)))
+MTrackingOnlySlews(R, lb, cx) == \A i \in DOMAIN R.acts : TrackingOnlySlewsP(ObsAct(R.acts[i]), Li(R, lb, cx, i))
+MSlewBound(R, lb, cx)  == \A i \in DOMAIN R.acts :
                         R.acts[i].k = "adjust" =>
                           /\ R.acts[i].slew_within_bound                       \* exact, on the real values
-                          /\ (R.acts[i].p_small => SlewBoundP(ObsAct(R.acts[i]), li))
-MPositiveDuration(R, li) == \A i \in DOMAIN R.acts : PositiveDurationP(ObsAct(R.acts[i]))
-MFiniteFrequency(R, li)  == \A i \in DOMAIN R.acts : FiniteFrequencyP(ObsAct(R.acts[i]))
+                          /\ (R.acts[i].p_small => SlewBoundP(ObsAct(R.acts[i]), Li(R, lb, cx, i)))
+MPositiveDuration(R, lb, cx) == \A i \in DOMAIN R.acts : PositiveDurationP(ObsAct(R.acts[i]))
+MFiniteFrequency(R, lb, cx)  == \A i \in DOMAIN R.acts : FiniteFrequencyP(ObsAct(R.acts[i]))
 \* The phase of the start-up sequence ("waiting for its initial step", "tracking")
 \* is the Pll's own, as it declares it in the `mode` attribute of its debug
 \* record, WHEN that attribute is there.  A property-preserving change that
@@ -85,32 +114,40 @@ DvAfter(R, li, dvB) ==
   ELSE IF li.obs THEN 1
   ELSE dvB
 ModeAfter(R, li, dvB) == IF R.mode >= 0 THEN R.mode ELSE DvAfter(R, li, dvB)
-MEpochRestarts(R, li) == /\ \A i \in DOMAIN R.acts : EpochRestartsP(ObsAct(R.acts[i]), li, ModeAfter(R, li, li.dvB))
-                         /\ EpochRestartsP(NoAct, li, ModeAfter(R, li, li.dvB))
+MEpochRestarts(R, lb, cx) ==
+  /\ \A i \in DOMAIN R.acts : EpochRestartsP(ObsAct(R.acts[i]), lb, ModeAfter(R, lb, lb.dvB))
+  /\ EpochRestartsP(NoAct, lb, ModeAfter(R, lb, lb.dvB))
 
-MFailing(R, li) ==
-  (IF MStepMode(R, li) THEN << >> ELSE <<"StepMode">>) \o
-  (IF MStepWait(R, li) THEN << >> ELSE <<"StepWait">>) \o
-  (IF MStepWeight(R, li) THEN << >> ELSE <<"StepWeight">>) \o
-  (IF MStepOffset(R, li) THEN << >> ELSE <<"StepOffset">>) \o
-  (IF MStepAmount(R, li) THEN << >> ELSE <<"StepAmount">>) \o
-  (IF MTrackingOnlySlews(R, li) THEN << >> ELSE <<"TrackingOnlySlews">>) \o
-  (IF MSlewBound(R, li) THEN << >> ELSE <<"SlewBound">>) \o
-  (IF MPositiveDuration(R, li) THEN << >> ELSE <<"PositiveDuration">>) \o
-  (IF MFiniteFrequency(R, li) THEN << >> ELSE <<"FiniteFrequency">>) \o
-  (IF MEpochRestarts(R, li) THEN << >> ELSE <<"EpochRestarts">>)
+MFailing(R, lb, cx) ==
+  (IF MStepMode(R, lb, cx) THEN << >> ELSE <<"StepMode">>) \o
+  (IF MStepWait(R, lb, cx) THEN << >> ELSE <<"StepWait">>) \o
+  (IF MStepWeight(R, lb, cx) THEN << >> ELSE <<"StepWeight">>) \o
+  (IF MStepOffset(R, lb, cx) THEN << >> ELSE <<"StepOffset">>) \o
+  (IF MStepAmount(R, lb, cx) THEN << >> ELSE <<"StepAmount">>) \o
+  (IF MTrackingOnlySlews(R, lb, cx) THEN << >> ELSE <<"TrackingOnlySlews">>) \o
+  (IF MSlewBound(R, lb, cx) THEN << >> ELSE <<"SlewBound">>) \o
+  (IF MPositiveDuration(R, lb, cx) THEN << >> ELSE <<"PositiveDuration">>) \o
+  (IF MFiniteFrequency(R, lb, cx) THEN << >> ELSE <<"FiniteFrequency">>) \o
+  (IF MEpochRestarts(R, lb, cx) THEN << >> ELSE <<"EpochRestarts">>)
 
 \* ------------------------------------------------------------- strict clauses
 \* evaluated on the primed Pll.tla variables (the specification's result for
-\* the same inputs) against the event
+\* the same inputs and the same external steps) against the event
 SMode(R)  == R.mode = mode'
-SReading(R) == R.now_t = now'.t /\ R.now_e = now'.e
-SEpoch(R) == R.cep = epoch' /\ R.cep2 = clkEpoch'
+\* the reading when Do was called / returned, the one reading Now() gave
+SReading(R) == /\ R.now_t = nowIn'.t /\ R.now_e = nowIn'.e /\ R.end_t = now'.t
+               /\ R.nnow = 1 /\ R.rnow_t = rnow'.t /\ R.rnow_e = rnow'.e
+\* the clock epoch afterwards, the Pll's epoch (the last value it read), the
+\* number of clock accesses and what the Epoch() reads returned
+SEpoch(R) == /\ R.cep2 = clkEpoch' /\ R.na = nacc'
+             /\ Len(R.q) \in {1, 2} /\ R.q[Len(R.q)] = epoch'
+             /\ (Len(R.q) = 2 <=> lastIn'.obs)
 SLogged(R) == R.nlog = 1 /\ ~R.panic
 SAct(R) ==
   IF act'.k = "none" THEN Len(R.acts) = 0
   ELSE /\ Len(R.acts) = 1
        /\ R.acts[1].k = act'.k
+       /\ R.acts[1].ai = nacc'
        /\ (act'.k = "step" => R.acts[1].x = act'.x)
        /\ (act'.k = "adjust" =>
              /\ R.acts[1].d_whole /\ R.acts[1].d = act'.d
@@ -132,32 +169,38 @@ Say(marker, names, n) == names = << >> \/ PrintT(<<marker, ToJson([l |-> n, c |-
 TInit ==
   /\ Init
   /\ l = 0
-  /\ oNow = Time0 /\ oCep = 0 /\ oCep2 = 0 /\ oMode = [lg |-> 0, dv |-> 1] /\ oEstart = Time0 /\ oLi = NoIn
+  /\ oNow = Time0 /\ oLo = Time0 /\ oQ = 0 /\ oCep2 = 0 /\ oMode = [lg |-> 0, dv |-> 1] /\ oEstart = Time0
   /\ mbad = 0 /\ sbad = 0
 
 Reset(R) ==
-  /\ mode' = 0 /\ epoch' = 0 /\ t0' = Time0 /\ t' = Time0 /\ now' = Time0
-  /\ clkEpoch' = R.c0 /\ estart' = Time0 /\ act' = NoAct /\ lastIn' = NoIn /\ hist' = << >>
-  /\ oNow' = Time0 /\ oCep' = 0 /\ oCep2' = R.c0 /\ oMode' = [lg |-> 0, dv |-> 1] /\ oEstart' = Time0 /\ oLi' = NoIn
+  /\ Set(S0(R.c0))
+  /\ oNow' = Time0 /\ oLo' = Time0 /\ oQ' = 0 /\ oCep2' = R.c0 /\ oMode' = [lg |-> 0, dv |-> 1] /\ oEstart' = Time0
   /\ UNCHANGED <<mbad, sbad>>
+
+RECURSIVE SumJ(_, _)
+SumJ(ks, i) == IF i > Len(ks) THEN 0 ELSE ks[i].j + SumJ(ks, i + 1)
 
 Upd(R) ==
   LET in   == [adv |-> R.adv, sat |-> R.sat, bump |-> R.bump, off |-> R.off, w |-> R.w]
       \* the symbolic proportional term is whatever the code slewed by
       raw  == IF Len(R.acts) = 1 /\ R.acts[1].k = "adjust" /\ R.acts[1].p_small THEN R.acts[1].p ELSE 0
-      now1 == TAdd(oNow, R.adv, R.sat)
-      ext  == R.cep # oCep2                      \* the clock epoch was bumped since the last call
+      now1 == TAdd(oNow, R.adv, R.sat)           \* the reading when Do is called
+      ext  == R.cep # oCep2                      \* the clock epoch was bumped since the last call returned
       es1  == IF ext THEN now1 ELSE oEstart
-      li   == [off |-> R.off, w |-> R.w, modeB |-> IF oMode.lg >= 0 THEN oMode.lg ELSE oMode.dv, dvB |-> oMode.dv,
-               obs |-> R.cep # oCep, since |-> TSub(now1, es1), dt |-> TSub(now1, oNow)]
+      end  == TAdd(now1, SumJ(R.ks, 1), FALSE)   \* the reading when Do has returned
+      cx   == [nowIn |-> now1, esIn |-> es1, lo |-> oLo]
+      lb   == [off |-> R.off, w |-> R.w, modeB |-> IF oMode.lg >= 0 THEN oMode.lg ELSE oMode.dv, dvB |-> oMode.dv,
+               obs |-> ObsChain(oQ, R.q, 1), since |-> 0, sinceIn |-> 0, dt |-> 0]
   IN
-  /\ Do(in, raw)
-  /\ oNow' = now1
-  /\ oCep' = R.cep /\ oCep2' = R.cep2
-  /\ oMode' = [lg |-> R.mode, dv |-> DvAfter(R, li, oMode.dv)]
-  /\ oEstart' = IF R.cep2 # R.cep THEN now1 ELSE es1
-  /\ oLi' = li
-  /\ mbad' = mbad + Len(MFailing(R, li)) /\ Say("MBAD", MFailing(R, li), l')
+  /\ Set(RunCall(S, in, raw, R.ks))
+  /\ oNow' = end /\ oLo' = now1
+  /\ oQ' = IF R.q = << >> THEN oQ ELSE R.q[Len(R.q)]
+  /\ oCep2' = R.cep2
+  /\ oMode' = [lg |-> R.mode, dv |-> DvAfter(R, lb, oMode.dv)]
+  \* a clock epoch that began inside this call (external step or the Pll's own
+  \* Step) began at the last reading of the call: only steps move the reading
+  /\ oEstart' = IF R.cep2 # R.cep THEN end ELSE es1
+  /\ mbad' = mbad + Len(MFailing(R, lb, cx)) /\ Say("MBAD", MFailing(R, lb, cx), l')
   /\ sbad' = sbad + Len(SFailing(R)) /\ Say("SBAD", SFailing(R), l')
 
 TNext ==
